@@ -612,8 +612,8 @@ class AgentExecutingComponent(rpu.AgentComponent):
         for cmd in ru.as_list(launcher.get_launch_cmds(task, exec_path)):
             ret += '  %s \\\n' % cmd
 
-        ret += ') 1> %s \\\n  2> %s\n' % (task['stdout_file_short'],
-                                          task['stderr_file_short'])
+        ret += ') 1> %s \\\n  2> %s\n' % (ru.sh_quote(task['stdout_file_short']),
+                                          ru.sh_quote(task['stderr_file_short']))
         # collect PID for launch-script
         ret += 'RP_RET=$?\n'
         ret += 'RP_LAUNCH_PID=$$\n'
